@@ -17,6 +17,9 @@ CLAIMS = {
  'C02': ('pzv-scheme', 'model-based testing of random straight-line programs (plaintext model of every ciphertext column as exact torus values)',
          'Random programs (1..12 steps) of add/sub/negate/copy/rotate/(X^k-1)/shift/normalise incl. all in-place forms over a register file of GLWE ciphertexts with independent sizes, a rank-0 operand and a cross-radix register; every column of the destination is compared after every step with the operation applied to the operands\' exact values (tolerance: exactly what truncated limbs can carry / one unit for rounding shifts), plus the phase under a generated key.',
          'Trusted: the dyadic value model. Right shifts are modelled on the unreduced value of the limb vector, as the library defines them.', 'DESIGN.md section 6 C02'),
+ 'C03': ('pzv-scheme', 'property-based testing with an exact integer phase oracle and a deterministic gadget-product bound built from the exactly extracted errors of the actual key cells (clear secrets via hook H4), proptest, 4 backends',
+         'glwe_keyswitch(_assign), the eight glwe_automorphism forms over every odd Galois element, glwe_trace(_assign) at every start level, lwe_keyswitch / glwe_from_lwe / lwe_from_glwe at every index / lwe_sample_extract, gglwe_keyswitch(_assign), automorphism-key automorphism (incl. the Galois-element metadata), glwe_pack over generated slot subsets and output gaps and the streaming GLWEPacker (bit-reversed order, batches): generated gadget shapes (dnum 1..4, dsize 1..4, spare limbs, k not a multiple of the radix, a_size not a multiple of dsize), ranks in/out 1..3, independent input / key / result radices, inputs with uniform / extreme / sparse digits. The exact phase of the result under the clear output secret must equal the expected image of the exact input phase within the worst-case bound of the gadget product computed from the true key errors; key cells produced by the library must encrypt the gadget-scaled input secret within the fresh-encryption bound.',
+         'Trusted: hook H4, the phase model, the bound formula of gad.rs (documented term by term). The bound is a worst case (L1 norms), about sqrt(N * digits) above typical noise: a regression that increases the noise by less than that factor is not detected. GGSW key-switch / automorphism are checked with C04 (they are gadget products followed by row expansion). N <= 128.', 'DESIGN.md section 6 C03'),
  'C06': ('pzv-scheme', 'statistical property-based testing: model-free error extraction (difference of two encryptions sharing the mask seed) with exact discrete-moment oracles and concentration bounds at a fixed false-alarm budget',
          'For every encryption routine family (GLWE sk/pk, GGLWE, GGSW, switching/automorphism/tensor keys, compressed forms) over generated layouts: every error coefficient is inside the configured truncation bound (deterministic, every case); pooled over >= 2^15 (quick) / 2^17 (thorough) coefficients per case the second moment of e1-e2 matches twice the exact variance of the rounded truncated Gaussian (band from the exact fourth moment, per-run false-alarm budget 2^-30), the mean is centred, masks are not reused between cells and two seeds give different masks.',
          'Statistical: a deviation of the standard deviation below roughly 6 % (quick) / 3 % (thorough) is inside the band and not detected; distribution shape beyond the first four moments is not tested. Trusted: hook H4, the moment formulas (unit-tested against brute force).', 'DESIGN.md section 6 C06'),
